@@ -1,6 +1,429 @@
-//! C11 monitor (not built yet)
-use vcore::{Args, Report};
+//! C11 — flow-control limits are never exceeded and violations are detected.
+//!
+//! Leg 1 (sender side, two real endpoints, streams_h.rs): the six initial flow-control parameters
+//! of both sides are drawn independently from {0,1,100,1000,65536,2^20}; a limit ledger written
+//! from RFC 9000 §18.2 / §4.1 follows every MAX_DATA / MAX_STREAM_DATA *at delivery* and checks
+//! every emitted STREAM frame against the receiver's limit in force for that stream kind, the
+//! connection-level sum of new bytes against MAX_DATA, the send controller's remaining credit
+//! (observed through `credit()`) against `limit − new bytes` after every packet (retransmissions
+//! free, unused credit returned), and that originated MAX_* values never decrease.
+//! Leg 2 (receiver side, one endpoint): hostile STREAM / RESET_STREAM frames just above and far
+//! above the advertised stream or connection limit must be answered with FLOW_CONTROL_ERROR.
+use qbase::{role::Role, sid::Dir};
+use serde_json::{Value, json};
+use vcore::{Args, Report, Rng};
 
-pub fn run(_args: &Args, rep: &mut Report) {
-    rep.inconclusive("monitor not built yet");
+use crate::{c01::{features_hash, report_case}, streams_h::*};
+
+fn run_e2e(rep: &mut Report, cfg: &Cfg, ops: &[Op], fin: bool) -> Option<CaseOut> {
+    let r = vcore::panics::catch(|| run_case(cfg, ops, fin, false));
+    rep.evaluations += 1;
+    match r {
+        Ok(out) => {
+            report_case(rep, "C11", "c11-e2e", cfg, ops, fin, &out);
+            Some(out)
+        }
+        Err(p) => {
+            let loc = vcore::panics::short_location(&p.location);
+            rep.violation(format!("C11.panic:{loc}"), format!("panic outside the guarded calls: {} at {}", p.message, p.location), case_replay("c11-e2e", cfg, ops, ops.len(), fin));
+            None
+        }
+    }
+}
+
+// ------------------------------------------------------------------------------------------------
+// receiver side
+
+const BIG: u64 = 1 << 40;
+/// connection limit that no scenario can reach (and far enough from 2^62 that the receive controller never tries to advertise more)
+const HUGE: u64 = (1 << 62) - 1;
+
+#[derive(Clone, Copy, Debug, PartialEq)]
+enum Kind {
+    PeerUni,
+    PeerBidi,
+    OwnBidi,
+}
+
+#[derive(Clone, Copy, Debug, PartialEq)]
+enum Hostile {
+    Stream,
+    StreamFin,
+    Reset,
+}
+
+impl Hostile {
+    fn name(self) -> &'static str {
+        match self {
+            Hostile::Stream => "stream-no-fin",
+            Hostile::StreamFin => "stream-fin",
+            Hostile::Reset => "reset",
+        }
+    }
+}
+
+struct Scen {
+    cfg: Cfg,
+    victim: Side,
+    steps: Vec<HStep>,
+    level: &'static str,
+    hostile: Hostile,
+    what: String,
+}
+
+fn base_cfg(victim: Side, vl: Limits) -> Cfg {
+    let other = Limits { max_data: BIG, bidi_local: BIG, bidi_remote: BIG, uni: BIG, streams_bidi: 10, streams_uni: 10 };
+    let lim = if victim == Side::C { [vl, other] } else { [other, vl] };
+    Cfg { lim, demand: [false, false], cseed: 0 }
+}
+
+/// advertised per-stream limit after the prefix: initial value or the largest MAX_STREAM_DATA originated for sid
+fn advertised_stream(run: &HRun, sid: u64, init: u64) -> u64 {
+    let mut a = init;
+    for c in &run.originated {
+        if let Ctl::Sc(qbase::frame::StreamCtlFrame::MaxStreamData(m)) = c {
+            if sid_raw(m.stream_id()) == sid {
+                a = a.max(m.max_stream_data());
+            }
+        }
+    }
+    a
+}
+
+fn advertised_conn(run: &HRun, init: u64) -> u64 {
+    let mut a = init;
+    for c in &run.originated {
+        if let Ctl::MaxData(m) = c {
+            a = a.max(m.max_data());
+        }
+    }
+    a
+}
+
+fn hostile_step(h: Hostile, sid: u64, end: u64, from: u64) -> HStep {
+    // a frame whose data ends at `end`; it starts at `from` if that keeps it small, else it is a 1-byte tail
+    let (off, len) = if end - from <= 70_000 { (from, (end - from) as usize) } else { (end - 1, 1) };
+    match h {
+        Hostile::Stream => HStep::Stream { sid, off, len, fin: false },
+        Hostile::StreamFin => HStep::Stream { sid, off, len, fin: true },
+        Hostile::Reset => HStep::Reset { sid, code: 7, final_size: end },
+    }
+}
+
+/// stream-level scenario number `idx` of the enumeration (None when out of range / not constructible)
+fn stream_scen(idx: u64) -> Option<Scen> {
+    let limits = [0u64, 1, 100, 1000, 65536];
+    let excess = [1u64, 2, 1000, 1 << 32, 1 << 60];
+    let mut x = idx;
+    let mut take = |n: u64| {
+        let r = x % n;
+        x /= n;
+        r
+    };
+    let victim = Side::from_u(take(2));
+    let kind = [Kind::PeerUni, Kind::PeerBidi, Kind::OwnBidi][take(3) as usize];
+    let l = limits[take(5) as usize];
+    let ex = excess[take(5) as usize];
+    let h = [Hostile::Stream, Hostile::StreamFin, Hostile::Reset][take(3) as usize];
+    // 0: hostile frame first thing; 1: legit data up to the limit first; 2: legit data, application reads (MAX_STREAM_DATA moves), then hostile
+    let shape = take(3);
+    let index = [0u64, 2][take(2) as usize];
+    if x != 0 {
+        return None;
+    }
+    let wrong = l * 2 + 7777; // the other two parameters get a different, larger value
+    let vl = match kind {
+        Kind::PeerUni => Limits { max_data: HUGE, bidi_local: wrong, bidi_remote: wrong, uni: l, streams_bidi: 10, streams_uni: 10 },
+        Kind::PeerBidi => Limits { max_data: HUGE, bidi_local: wrong, bidi_remote: l, uni: wrong, streams_bidi: 10, streams_uni: 10 },
+        Kind::OwnBidi => Limits { max_data: HUGE, bidi_local: l, bidi_remote: wrong, uni: wrong, streams_bidi: 10, streams_uni: 10 },
+    };
+    let cfg = base_cfg(victim, vl);
+    let peer_role = victim.peer().role();
+    let mut steps = vec![];
+    let sid = match kind {
+        Kind::PeerUni => mk_sid(peer_role, Dir::Uni, index),
+        Kind::PeerBidi => mk_sid(peer_role, Dir::Bi, index),
+        Kind::OwnBidi => {
+            for _ in 0..=index {
+                steps.push(HStep::Open(Dir::Bi));
+            }
+            mk_sid(victim.role(), Dir::Bi, index)
+        }
+    };
+    let mut from = 0;
+    if shape >= 1 {
+        if l == 0 {
+            return None;
+        }
+        steps.push(HStep::Stream { sid, off: 0, len: l as usize, fin: false });
+        from = l;
+    }
+    let mut adv = l;
+    if shape == 2 {
+        steps.push(HStep::AcceptAll);
+        steps.push(HStep::ReadAll);
+        let run = run_hostile(&cfg, victim, &steps);
+        adv = advertised_stream(&run, sid, l);
+        if adv == l {
+            return None; // the read did not move the limit: same as shape 1
+        }
+    }
+    let end = adv.checked_add(ex)?;
+    if end >= (1 << 62) {
+        return None;
+    }
+    steps.push(hostile_step(h, sid, end, from));
+    Some(Scen {
+        cfg,
+        victim,
+        steps,
+        level: "stream-limit",
+        hostile: h,
+        what: format!("{kind:?} stream index {index} of victim {victim:?}: advertised stream limit {adv} (initial {l}), hostile {} ends at {end}", h.name()),
+    })
+}
+
+fn conn_scen(idx: u64) -> Option<Scen> {
+    let limits = [0u64, 1, 100, 1000, 65536];
+    let excess = [1u64, 1000, 1 << 32];
+    let mut x = idx;
+    let mut take = |n: u64| {
+        let r = x % n;
+        x /= n;
+        r
+    };
+    let victim = Side::from_u(take(2));
+    let m = limits[take(5) as usize];
+    let ex = excess[take(3) as usize];
+    let h = [Hostile::Stream, Hostile::StreamFin, Hostile::Reset][take(3) as usize];
+    let nstreams = 1 + take(3);
+    let fill = take(2) == 1; // legit data up to the connection limit first
+    if x != 0 {
+        return None;
+    }
+    let vl = Limits { max_data: m, bidi_local: BIG, bidi_remote: BIG, uni: BIG, streams_bidi: 10, streams_uni: 10 };
+    let cfg = base_cfg(victim, vl);
+    let peer_role = victim.peer().role();
+    let sids: Vec<u64> = (0..nstreams).map(|i| mk_sid(peer_role, if i % 2 == 0 { Dir::Uni } else { Dir::Bi }, i / 2)).collect();
+    let mut steps = vec![];
+    let mut per = vec![0u64; nstreams as usize];
+    if fill {
+        if m == 0 {
+            return None;
+        }
+        let part = m / nstreams;
+        for (i, s) in sids.iter().enumerate() {
+            let len = if i as u64 == nstreams - 1 { m - part * (nstreams - 1) } else { part };
+            if len > 0 {
+                steps.push(HStep::Stream { sid: *s, off: 0, len: len as usize, fin: false });
+            }
+            per[i] = len;
+        }
+    }
+    let run = run_hostile(&cfg, victim, &steps);
+    let adv = advertised_conn(&run, m);
+    let total: u64 = per.iter().sum();
+    // the hostile frame goes to the last stream and raises the connection total to adv + ex
+    let j = nstreams as usize - 1;
+    let end = per[j] + (adv - total) + ex;
+    steps.push(hostile_step(h, sids[j], end, per[j]));
+    Some(Scen {
+        cfg,
+        victim,
+        steps,
+        level: "conn-limit",
+        hostile: h,
+        what: format!("victim {victim:?}: advertised MAX_DATA {adv} (initial {m}), {total} bytes received on {nstreams} streams, hostile {} raises the total to {}", h.name(), adv + ex),
+    })
+}
+
+fn judge(rep: &mut Report, sc: &Scen) {
+    let run = run_hostile(&sc.cfg, sc.victim, &sc.steps);
+    eval_hostile(rep, &sc.cfg, sc.victim, &sc.steps, sc.level, sc.hostile.name(), &sc.what, &run);
+}
+
+fn eval_hostile(rep: &mut Report, cfg: &Cfg, victim: Side, steps: &[HStep], level: &str, hname: &str, what: &str, run: &HRun) {
+    rep.evaluations += 1;
+    let last = steps.len() - 1;
+    let replay = || hostile_replay("c11-hostile", cfg, victim, steps, json!({"level": level, "hostile": hname, "what": what}));
+    for (i, r) in run.results.iter().enumerate() {
+        match r {
+            HRes::Panic(loc, msg) => {
+                rep.violation(format!("C11.panic:{loc}"), format!("{what}: step {i} panicked: {msg}"), replay());
+                return;
+            }
+            HRes::Err(kind, reason) if i < last => {
+                // the prefix is within every advertised limit by construction
+                rep.violation(format!("C11.recv.legal-data-refused:{kind}"), format!("{what}: legal prefix step {i} {:?} was refused with {kind}: {reason}", steps[i]), replay());
+                return;
+            }
+            _ => {}
+        }
+    }
+    match &run.results[last] {
+        HRes::Err(kind, _) if kind == "FlowControl" => {
+            rep.count(&format!("hostile_{level}_{hname}_refused_with_flow_control"));
+            rep.distinct(vcore::fnv_str(&format!("{:?}{:?}{:?}", cfg.lim, victim, steps)));
+        }
+        HRes::Err(kind, reason) => rep.violation(format!("C11.recv.{level}:{hname}-wrong-error:{kind}"), format!("{what}: answered with {kind} ({reason}) instead of FLOW_CONTROL_ERROR"), replay()),
+        HRes::Ok(n) => rep.violation(format!("C11.recv.{level}:{hname}-accepted"), format!("{what}: frame was accepted ({n} fresh bytes), FLOW_CONTROL_ERROR required"), replay()),
+        other => rep.inconclusive(format!("c11 hostile scenario ended with {other:?}")),
+    }
+}
+
+/// RFC 9000 §4.5: a stream's final size is the flow-control credit it consumed.  After an accepted
+/// RESET_STREAM the bytes reported to the connection-level controller for the stream must add up to the
+/// final size, and a probe that raises the RFC total above the advertised MAX_DATA must be refused.
+fn accounting_scenarios(rep: &mut Report) {
+    let sig = "C11.recv.conn-accounting:reset-final-size-uncounted";
+    for victim in [Side::C, Side::S] {
+        for dir in [Dir::Uni, Dir::Bi] {
+            for have in [0u64, 100] {
+                for gap in [1u64, 500, 65_000] {
+                    // 0: FIN frame without data at the final size, 1: FIN frame carrying the last byte, 2: no FIN at all
+                    for fin_shape in 0..3 {
+                        for conn in [1u64 << 30, 1000] {
+                            let fin = have + gap;
+                            if conn == 1000 && fin > 900 {
+                                continue;
+                            }
+                            let vl = Limits { max_data: conn, bidi_local: BIG, bidi_remote: BIG, uni: BIG, streams_bidi: 10, streams_uni: 10 };
+                            let cfg = base_cfg(victim, vl);
+                            let peer = victim.peer().role();
+                            let sid = mk_sid(peer, dir, 0);
+                            let mut steps = vec![];
+                            if have > 0 {
+                                steps.push(HStep::Stream { sid, off: 0, len: have as usize, fin: false });
+                            }
+                            match fin_shape {
+                                0 => steps.push(HStep::Stream { sid, off: fin, len: 0, fin: true }),
+                                1 => steps.push(HStep::Stream { sid, off: fin - 1, len: 1, fin: true }),
+                                _ => {}
+                            }
+                            steps.push(HStep::Reset { sid, code: 5, final_size: fin });
+                            let reset_ix = steps.len() - 1;
+                            // probe on another stream: raises the RFC total to advertised + 1
+                            let pre = run_hostile(&cfg, victim, &steps);
+                            let adv = advertised_conn(&pre, conn);
+                            let probe = adv >= fin && adv + 1 - fin <= 70_000;
+                            if probe {
+                                steps.push(HStep::Stream { sid: mk_sid(peer, dir, 1), off: 0, len: (adv + 1 - fin) as usize, fin: false });
+                            }
+                            rep.evaluations += 1;
+                            let run = run_hostile(&cfg, victim, &steps);
+                            let what = format!("victim {victim:?}, peer {dir:?} stream: {have} bytes received, {} then RESET_STREAM final size {fin}", ["empty FIN frame at the final size,", "FIN frame with the last byte,", "no FIN,"][fin_shape]);
+                            let replay = hostile_replay("c11-accounting", &cfg, victim, &steps, json!({"reset_ix": reset_ix, "final": fin, "probe": probe, "what": what}));
+                            eval_accounting(rep, sig, &steps, reset_ix, fin, probe, &what, &run, replay);
+                        }
+                    }
+                }
+            }
+        }
+    }
+}
+
+#[allow(clippy::too_many_arguments)]
+fn eval_accounting(rep: &mut Report, sig: &str, steps: &[HStep], reset_ix: usize, fin: u64, probe: bool, what: &str, run: &HRun, replay: Value) {
+    let mut counted = 0u64;
+    for (i, r) in run.results.iter().enumerate().take(reset_ix + 1) {
+        match r {
+            HRes::Ok(n) => counted += *n as u64,
+            HRes::Panic(loc, msg) => {
+                rep.violation(format!("C11.panic:{loc}"), format!("{what}: step {i} panicked: {msg}"), replay);
+                return;
+            }
+            other => {
+                rep.inconclusive(format!("c11 accounting scenario: legal step {i} {:?} gave {other:?} ({what})", steps[i]));
+                return;
+            }
+        }
+    }
+    if counted != fin {
+        rep.violation(sig, format!("{what}: only {counted} of {fin} bytes were reported to the connection-level flow controller"), replay);
+        return;
+    }
+    if probe {
+        match run.results.last().unwrap() {
+            HRes::Err(k, _) if k == "FlowControl" => rep.count("accounting_probe_refused_with_flow_control"),
+            other => {
+                rep.violation(sig, format!("{what}: a probe that raises the connection total above the advertised MAX_DATA gave {other:?}"), replay);
+                return;
+            }
+        }
+    }
+    rep.count("accounting_scenarios_conform");
+    rep.distinct(vcore::fnv_str(&format!("{:?}", steps)));
+}
+
+pub fn run(args: &Args, rep: &mut Report) {
+    rep.rule = "sender leg: case = (16 transport-parameter values, strategies, op list); distinct = distinct op lists in which at least one STREAM frame ended exactly at a \
+                stream or connection limit or a credit probe saw the controller blocked; receiver leg: distinct = distinct (parameters, victim, frame list) scenarios refused with FLOW_CONTROL_ERROR"
+        .into();
+    let rt = tokio::runtime::Builder::new_current_thread().enable_time().start_paused(true).build().unwrap();
+    let _g = rt.enter();
+    if let Some(path) = args.get("replay") {
+        let v: Value = serde_json::from_str(&std::fs::read_to_string(path).unwrap()).unwrap();
+        let v = if v.get("replay").is_some() { v["replay"].clone() } else { v };
+        if v["kind"] == "c11-accounting" {
+            let (cfg, victim, steps, ex) = hostile_from_replay(&v);
+            let run = run_hostile(&cfg, victim, &steps);
+            rep.evaluations += 1;
+            eval_accounting(rep, "C11.recv.conn-accounting:reset-final-size-uncounted", &steps, ex["reset_ix"].as_u64().unwrap() as usize, ex["final"].as_u64().unwrap(), ex["probe"].as_bool().unwrap_or(false), ex["what"].as_str().unwrap_or(""), &run, v.clone());
+        } else if v["kind"] == "c11-hostile" {
+            let (cfg, victim, steps, ex) = hostile_from_replay(&v);
+            let run = run_hostile(&cfg, victim, &steps);
+            eval_hostile(rep, &cfg, victim, &steps, ex["level"].as_str().unwrap_or("stream-limit"), ex["hostile"].as_str().unwrap_or("stream-no-fin"), ex["what"].as_str().unwrap_or(""), &run);
+        } else {
+            let (cfg, ops, fin) = case_from_replay(&v);
+            run_e2e(rep, &cfg, &ops, fin);
+        }
+        return;
+    }
+    let thorough = args.get("tier") == Some("thorough");
+    let shard = args.u64("shard", 0);
+    let shards = args.u64("shards", 1);
+    // receiver leg: full enumeration, strided over the shards
+    let mut idx = shard;
+    let (mut n_stream, mut n_conn) = (0u64, 0u64);
+    while idx < 2 * 3 * 5 * 5 * 3 * 3 * 2 {
+        if let Some(sc) = stream_scen(idx) {
+            judge(rep, &sc);
+            n_stream += 1;
+        }
+        idx += shards;
+    }
+    let mut idx = shard;
+    while idx < 2 * 5 * 3 * 3 * 3 * 2 {
+        if let Some(sc) = conn_scen(idx) {
+            judge(rep, &sc);
+            n_conn += 1;
+        }
+        idx += shards;
+    }
+    if shard == 0 {
+        accounting_scenarios(rep);
+    }
+    rep.add("hostile_stream_level_scenarios", n_stream);
+    rep.add("hostile_conn_level_scenarios", n_conn);
+    rep.exhaustive = Some(false);
+    // sender leg
+    let n = args.budget(if thorough { 20_000 } else { 300 });
+    let mut rng = Rng::new(args.seed() ^ 0xc11).fork(shard);
+    for i in 0..n {
+        let cfg = gen_cfg(&mut rng, Profile::C11);
+        let ops = gen_ops(&mut rng, Profile::C11, &cfg);
+        let Some(out) = run_e2e(rep, &cfg, &ops, true) else { continue };
+        add_stats(rep, &out.stats, &out.ledger);
+        rep.set("fault_feature_mixes", features_hash(&out.stats));
+        rep.set("param_shapes", vcore::fnv_str(&format!("{:?}", cfg.lim)));
+        rep.count("e2e_cases");
+        let l = &out.ledger;
+        if l.frames_at_stream_limit > 0 || l.frames_at_conn_limit > 0 || l.credit_probes_blocked > 0 {
+            rep.distinct(ops_hash(&ops) ^ cfg.cseed);
+        }
+        if i < 2 {
+            rep.sample(json!({"cfg": cfg.to_json(), "n_ops": ops.len(), "stream_frames_checked": l.stream_frames_checked, "credit_probes": l.credit_probes}));
+        }
+    }
+    let _ = Role::Client;
 }
